@@ -892,6 +892,7 @@ func c06BamTrip(hd []c06Ref, recs []c06Rec) (cls, what string, bamBytes []byte) 
 	}
 	var want [][]byte
 	var got [][]byte
+	var held []*sam.Record
 	var werr, rerr error
 	o := guardTimeout(20*time.Second, func() {
 		var buf bytes.Buffer
@@ -933,6 +934,11 @@ func c06BamTrip(hd []c06Ref, recs []c06Rec) (cls, what string, bamBytes []byte) 
 				rerr = err
 				return
 			}
+			held = append(held, r)
+		}
+		// every record is kept until the whole file has been read, and only then formatted: a record must not
+		// change when the Reader goes on (records alias nothing of the Reader's buffer)
+		for _, r := range held {
 			line, err := r.MarshalSAM(0)
 			if err != nil {
 				rerr = err
@@ -1014,61 +1020,66 @@ func c06ConformantAux(rr c06Rec) (fields [][]byte, types []string) {
 // c06BamAuxBlocks: the aux blocks of the records of a BAM file, located with an own reading of the layout
 // (BGZF is only inflated by the library's reader): magic, l_text, text, n_ref, references, then per record
 // block_size and the 32 fixed bytes, read name, CIGAR, packed sequence, qualities; the rest is the aux block.
-func c06BamAuxBlocks(bamBytes []byte) (blocks [][]byte, err error) {
+func c06BamAuxBlocks(bamBytes []byte) (blocks [][]byte, sizes []int, err error) {
 	br, err := bgzf.NewReader(bytes.NewReader(bamBytes), 1)
 	if err != nil {
-		return nil, err
+		return nil, nil, err
 	}
 	defer br.Close()
 	b, err := io.ReadAll(br)
 	if err != nil {
-		return nil, err
+		return nil, nil, err
 	}
 	le32 := func(off int) int { return int(int32(binary.LittleEndian.Uint32(b[off:]))) }
 	if len(b) < 12 || string(b[:4]) != "BAM\x01" {
-		return nil, fmt.Errorf("no BAM magic")
+		return nil, nil, fmt.Errorf("no BAM magic")
 	}
 	off := 8 + le32(4)
 	if off+4 > len(b) {
-		return nil, fmt.Errorf("short header")
+		return nil, nil, fmt.Errorf("short header")
 	}
 	nref := le32(off)
 	off += 4
 	for i := 0; i < nref; i++ {
 		if off+4 > len(b) {
-			return nil, fmt.Errorf("short reference list")
+			return nil, nil, fmt.Errorf("short reference list")
 		}
 		off += 4 + le32(off) + 4
 	}
 	for off < len(b) {
 		if off+36 > len(b) {
-			return nil, fmt.Errorf("short record")
+			return nil, nil, fmt.Errorf("short record")
 		}
 		size := le32(off)
 		body := off + 4
 		if size < 32 || body+size > len(b) {
-			return nil, fmt.Errorf("bad block size %d", size)
+			return nil, nil, fmt.Errorf("bad block size %d", size)
 		}
 		lName := int(b[body+8])
 		nCigar := int(binary.LittleEndian.Uint16(b[body+12:]))
 		lSeq := le32(body + 16)
 		aux := body + 32 + lName + 4*nCigar + (lSeq+1)/2 + lSeq
 		if aux > body+size {
-			return nil, fmt.Errorf("fields longer than the block")
+			return nil, nil, fmt.Errorf("fields longer than the block")
 		}
 		blocks = append(blocks, b[aux:body+size])
+		sizes = append(sizes, size)
 		off = body + size
 	}
-	return blocks, nil
+	return blocks, sizes, nil
 }
 
 // c06BamLayoutCheck: the aux block the library wrote for each record against the conformant encoder's.
 func c06BamLayoutCheck(recs []c06Rec, bamBytes []byte) (cls, what string, culprit *c06Rec) {
-	blocks, err := c06BamAuxBlocks(bamBytes)
+	blocks, sizes, err := c06BamAuxBlocks(bamBytes)
 	if err != nil || len(blocks) != len(recs) {
 		return "records", fmt.Sprintf("the written BAM does not parse as %d records by the layout of SAMv1 section 4.2: %v (%d found)", len(recs), err, len(blocks)), nil
 	}
 	for i, rr := range recs {
+		if want := c06BlockSize(rr); sizes[i] != want {
+			one := rr
+			return "blocksize", fmt.Sprintf("record %d: block_size %d, SAMv1 section 4.2 says %d", i, sizes[i], want), &one
+		}
 		fields, types := c06ConformantAux(rr)
 		got := blocks[i]
 		off := 0
@@ -1111,6 +1122,17 @@ func c06BamOracle(c *ctx, hd []c06Ref, recs []c06Rec) {
 		return
 	}
 	in := c06Input{Kind: "bam", Header: hd, Recs: recs}
+	alone := false
+	for _, rr := range recs {
+		if c1, _, _ := c06BamTrip(hd, []c06Rec{rr}); c1 != "" {
+			alone = true
+		}
+	}
+	if !alone && strings.HasPrefix(cls, "line.") {
+		// no record fails when it is the only one in the file: the record changed while later records were read
+		cls = "held"
+		what += " (each record alone round-trips: a record held across later Reads changed)"
+	}
 	for _, rr := range recs {
 		if c1, w1, _ := c06BamTrip(hd, []c06Rec{rr}); c1 != "" {
 			cls, what, in.Recs = c1, w1, []c06Rec{rr}
@@ -2060,6 +2082,38 @@ func c06PickLine(rnd *Rand, line []byte) []byte {
 	return []byte("\r")
 }
 
+// c06BlockSize: block_size of the BAM record of a description (SAMv1 section 4.2: 32 fixed bytes, name and NUL,
+// CIGAR words, packed sequence, qualities, conformant aux block).
+func c06BlockSize(rr c06Rec) int {
+	n := len(rr.Seq)
+	if rr.Seq == "-" {
+		n = 0
+	}
+	size := 32 + len(unhex(rr.Name)) + 1 + 4*len(c16ParseCigar(rr.Cigar)) + (n+1)/2 + n
+	fields, _ := c06ConformantAux(rr)
+	for _, f := range fields {
+		size += len(f)
+	}
+	return size
+}
+
+// c06TuneBlockSize pads a record with one Z aux so that its BAM block_size is exactly target (the Reader's
+// internal buffer is 4096 bytes: 4095, 4096, 4097 and sizes above it take different paths).
+func c06TuneBlockSize(rnd *Rand, rr c06Rec, target int) (c06Rec, bool) {
+	size := c06BlockSize(rr)
+	pad := target - size - 4 // tag, type, NUL
+	if pad < 0 {
+		return rr, false
+	}
+	z := make([]byte, pad)
+	for i := range z {
+		z[i] = byte(rnd.rng(33, 126))
+	}
+	out := rr
+	out.Aux = append(append([]string(nil), rr.Aux...), hexs(append([]byte{'X', 'p', 'Z'}, z...)))
+	return out, c06BlockSize(out) == target
+}
+
 func c06BamEncodable(rr c06Rec) bool {
 	in32 := func(v int) bool { return v >= math.MinInt32 && v <= math.MaxInt32 }
 	return in32(rr.Pos) && in32(rr.MatePos) && in32(rr.TLen) && len(c16ParseCigar(rr.Cigar)) < 65536
@@ -2247,11 +2301,19 @@ func checkC06(c *ctx) {
 	for i := 0; i < nBam; i++ {
 		hd = c06GenHeader(rnd)
 		var recs []c06Rec
-		for len(recs) < rnd.rng(1, 8) {
+		for len(recs) < rnd.rng(2, 8) {
 			rr := c06GenRecord(rnd, hd, false)
 			if c06Expressible(hd, rr) && c06BamEncodable(rr) {
 				recs = append(recs, rr)
 			}
+		}
+		// one record per batch (never the last one: later Reads follow it) gets a block_size at the edge of the
+		// Reader's 4096-byte buffer, or well above it
+		target := []int{4096, 4095, 4097, 4096, 8192, 4096, 70000}[i%7]
+		k := rnd.intn(len(recs) - 1)
+		if t, ok := c06TuneBlockSize(rnd, recs[k], target); ok && c06Expressible(hd, t) {
+			recs[k] = t
+			r.hist(fmt.Sprintf("bam.blocksize.%d", target))
 		}
 		c06BamOracle(c, hd, recs)
 		r.eval("bam:"+fmt.Sprint(hd, recs), true)
